@@ -276,14 +276,26 @@ pub fn for_each_tree(subset: &[PoolName], p: &TreeParams, f: &mut dyn FnMut(&Nod
 }
 
 fn deco_rec(start: usize, left: usize, decos: &[Deco], cur: &mut Vec<Deco>, f: &mut dyn FnMut(&[Deco])) {
+    deco_rec2(start, left, decos, cur, false, f)
+}
+
+/// `any_placed`: some node is decorated already. A decoration "text next to one attribute out of several" is only
+/// placed on a tree whose other nodes are plain (in combination with a second decorated node it would double the
+/// sweeps with two decorated nodes for little)
+fn deco_rec2(start: usize, left: usize, decos: &[Deco], cur: &mut Vec<Deco>, any_placed: bool, f: &mut dyn FnMut(&[Deco])) {
     f(cur);
     if left == 0 {
         return;
     }
+    let most = decos.iter().map(|d| match d { Deco::AttrsText(a) => a.len(), _ => 0 }).max().unwrap_or(0);
     for i in start..cur.len() {
         for d in decos {
+            let partial = matches!(d, Deco::AttrsText(a) if a.len() < most);
+            if partial && any_placed {
+                continue;
+            }
             cur[i] = d.clone();
-            deco_rec(i + 1, left - 1, decos, cur, f);
+            deco_rec2(i + 1, if partial { 0 } else { left - 1 }, decos, cur, true, f);
         }
         cur[i] = Deco::Plain;
     }
